@@ -11,7 +11,7 @@ props="$@"; [ -z "$props" ] && props="C01 C02 C03 C04 C05 C06 C07 C08 C09 C10 C1
 mkdir -p $d/out
 al=""
 for p in $props; do
-  out=$(/verif/bin/goircsa -q -repo $d/repo -out $d/out -property $p 2>&1); rc=$?
+  out=$(${BIN:-/verif/bin/goircsa} -q -repo $d/repo -out $d/out -property $p 2>&1); rc=$?
   if [ $rc -ne 0 ]; then al="$al $p"; echo "--- $p"; echo "$out" | grep -v "^KNOWN\|^VIOLATION" | cut -c1-700 | head -8; fi
 done
 echo "RESULT alarms:[$al ]"
